@@ -1,4 +1,6 @@
 import TextxVerif.Proofs.Cli
+import TextxVerif.Proofs.CliSel
+import TextxVerif.Proofs.CliClick
 /-!
 # C30 — the textx CLI reports outcomes and passes generator arguments faithfully
 
@@ -11,6 +13,9 @@ which lists are command lines in the CLI's syntax (no file or value starts with
 `--`, a bare flag is not directly followed by a file name).  All theorems hold
 for every such list: any number of files and arguments, any names (with or
 without dashes, repeated, clashing after normalisation), any values.
+`C30_args_all_lines` shows that `WF` is no restriction on what is typed: every
+token list is the rendering of exactly one well-formed item list (a bare flag
+directly followed by a file name *is*, token for token, a valued argument).
 click's own option parsing is outside the model (the model starts from the tuple
 click hands to the command body).
 -/
@@ -162,6 +167,200 @@ theorem C30_generate_calls (env : Env) (arguments : List Str) :
       exact ⟨by rw [h1]; exact h2, genLoop_exit_01 _ _ _ _ _,
         fun _ => ⟨k, hk, by rw [h1]; exact h3, by rw [h1]; exact h4⟩, fun h => absurd h hne'⟩
 
+/-- **Every token list is a command line, in exactly one way.**  Whatever tuple of tokens
+reaches the command body, there is exactly one well-formed list of model files and custom
+arguments that renders to it, and the argument loop returns the files and the dictionary of
+that list.  So `WF` in `C30_args` excludes no input: it only fixes how a token sequence is
+read (a `--name` followed by a token that does not start with `--` is a valued argument). -/
+theorem C30_args_all_lines (args : List Str) :
+    ∃ items, WF items ∧ render items = args ∧
+      (∀ items', WF items' → render items' = args → items' = items) ∧
+      parseArgs args = (expFiles items, expDict items []) := by
+  obtain ⟨hr, hwf⟩ := readItems_spec args.length args (Nat.le_refl _)
+  refine ⟨readItems args, hwf, hr, ?_, ?_⟩
+  · intro items' hwf' hr'
+    rw [← readItems_render items' hwf', hr']
+  · have := C30_args (readItems args) hwf
+    rw [hr] at this
+    exact this
+
+/-- **From the typed command line to the generator, through click.**  A typed line is a list of
+custom items (model files, `--name [value]`) interleaved at arbitrary places with click's own
+options in canonical spelling (`WFc`).  click hands the command body exactly the rendering of
+the custom part, and — when that custom part, *with click's options taken out*, is well-formed —
+the argument loop returns its files and its dictionary.  The well-formedness that matters is
+that of the line after click's removal: see `C30_click_adjacent_false`. -/
+theorem C30_args_click (line : List CItem) (hc : WFc line) :
+    clickStrip (renderC line) = render (itemsOf line) ∧
+    (WF (itemsOf line) →
+      parseArgs (clickStrip (renderC line)) = (expFiles (itemsOf line), expDict (itemsOf line) [])) := by
+  have h := clickStrip_renderC line hc
+  exact ⟨h, fun hwf => by rw [h]; exact C30_args _ hwf⟩
+
+/-- **Open finding C30-KF1 as a statement about the code.**  A bare flag separated from a
+following model file only by a click-owned option: on the typed line the flag is not followed by
+a file, but click removes its option first, the flag and the file become neighbours, and the
+loop reads the file as the flag's value — no model file is left and the generator would get
+`my_flag="m.x"` instead of `my_flag=True` and the model `m.x`. -/
+theorem C30_click_adjacent_false :
+    ∃ line : List CItem, WFc line ∧
+      renderC line = ["--my-flag".toList, "--overwrite".toList, "m.x".toList] ∧
+      ¬ WF (itemsOf line) ∧
+      parseArgs (clickStrip (renderC line)) = ([], [("my_flag".toList, .str "m.x".toList)]) ∧
+      (expFiles (itemsOf line), expDict (itemsOf line) []) = (["m.x".toList], [("my_flag".toList, .flag)]) :=
+  ⟨[.item (.arg "my-flag".toList none), .flagOpt "--overwrite".toList, .item (.file "m.x".toList)],
+    by simp only [WFc, Plain]; decide, by decide, by simp [itemsOf, WF], by decide, by decide⟩
+
+/-- **The reported validation error is true.**  `missing n`: `n` is a mandatory declared
+parameter that was not given.  `undeclared k`: `k` was given, is not declared, and no mandatory
+parameter is missing (a missing mandatory parameter is reported first). -/
+theorem C30_validate_error (ps : List Param) (given : List Str) :
+    (∀ n, validate (some ps) given = some (.missing n) →
+      ∃ p ∈ ps, p.mandatory = true ∧ p.name = n ∧ n ∉ given) ∧
+    (∀ k, validate (some ps) given = some (.undeclared k) →
+      k ∈ given ∧ k ∉ ps.map (·.name) ∧ ∀ p ∈ ps, p.mandatory = true → p.name ∈ given) :=
+  ⟨fun n h => validate_missing_spec ps given n h, fun k h => validate_undeclared_spec ps given k h⟩
+
+/-- **The loop stops at the first file it does not get past.**  If the files before `f` are all
+loaded and accepted and `f` is not (it does not load, its language or generator is unknown, or its
+generator rejects the arguments), `textx generate` exits 1 having called the generator exactly for
+the files before `f`, in order, each with the dictionary of `C30_args` — and the failure recorded
+is the reason `f` stops the loop (`StopsWith`: registration / escaping exception for a missing
+file / error located in `f` at its line and column / argument error of `f`'s generator). -/
+theorem C30_generate_stops (env : Env) (items : List Item) (hwf : WF items)
+    (ex : Option Str) (hmode : modeLang env = .ok ex)
+    (pre : List Str) (f : Str) (rest : List Str) (hfiles : expFiles items = pre ++ f :: rest)
+    (hpre : ∀ g ∈ pre, Accepts env ex (expDict items []) g)
+    (hna : ¬ Accepts env ex (expDict items []) f) :
+    ∃ e, StopsWith env ex (expDict items []) f e ∧
+      runGenerate env (render items) =
+        { exit := 1,
+          calls := pre.map (fun g => { file := some g, kwargs := expDict items [] }),
+          fail := some e } := by
+  obtain ⟨e, hstop, hloop⟩ := genLoop_head_stop env ex (expDict items []) f rest
+    (pre.map (fun g => { file := some g, kwargs := expDict items [] })) hna
+  refine ⟨e, hstop, ?_⟩
+  unfold runGenerate
+  rw [hmode, C30_args items hwf]
+  have hne : (expFiles items).isEmpty = false := by
+    rw [hfiles]; cases pre <;> rfl
+  simp only [hne]
+  rw [hfiles, genLoop_prefix env ex _ pre (f :: rest) [] hpre]
+  simpa using hloop
+
+/-- **Rejection by the selected generator.**  The files before `f` are accepted; `f` loads and the
+generator selected for it (its own language, or the `any` fallback when no language was given
+explicitly) declares parameters `ps`.  If a mandatory parameter is not among the normalised names
+on the command line, or some name on the command line is not declared — whatever other generators
+are registered for the target — `textx generate` exits 1 with an argument error, having called the
+generator exactly for the files before `f`.  The error names a real culprit: a mandatory
+parameter no argument normalises to, or the normalised name of an argument that is not declared. -/
+theorem C30_generate_reject_selected (env : Env) (items : List Item) (hwf : WF items)
+    (ex : Option Str) (hmode : modeLang env = .ok ex)
+    (pre : List Str) (f : Str) (rest : List Str) (hfiles : expFiles items = pre ++ f :: rest)
+    (hpre : ∀ g ∈ pre, Accepts env ex (expDict items []) g)
+    (hres : (fileInfo env f).res = .ok) (l : Str) (hl : langFor env ex f = some l)
+    (ps : List Param) (hg : findGen env.gens l ex.isNone = some (some ps))
+    (hbad : (∃ p ∈ ps, p.mandatory = true ∧ ∀ n v, Item.arg n v ∈ items → norm n ≠ p.name) ∨
+            (∃ n v, Item.arg n v ∈ items ∧ norm n ∉ ps.map (·.name))) :
+    (runGenerate env (render items)).exit = 1 ∧
+    (runGenerate env (render items)).calls =
+      pre.map (fun g => { file := some g, kwargs := expDict items [] }) ∧
+    ∃ e, (runGenerate env (render items)).fail = some (.args e) ∧
+      (∀ n, e = .missing n →
+        ∃ p ∈ ps, p.mandatory = true ∧ p.name = n ∧ ∀ n' v, Item.arg n' v ∈ items → norm n' ≠ n) ∧
+      (∀ k, e = .undeclared k →
+        (∃ n v, Item.arg n v ∈ items ∧ norm n = k) ∧ k ∉ ps.map (·.name)) := by
+  have hkeys : ∀ k, k ∈ dkeys (expDict items []) ↔ ∃ n v, Item.arg n v ∈ items ∧ norm n = k := by
+    intro k
+    rw [dkeys_expDict]
+    simp [dkeys]
+  have hne : validate (some ps) (dkeys (expDict items [])) ≠ none := by
+    intro hnone
+    obtain ⟨h1, h2⟩ := (validate_none_iff ps _).1 hnone
+    rcases hbad with ⟨p, hp, hm, hno⟩ | ⟨n, v, hmem, hnd⟩
+    · obtain ⟨n, v, hmem, hn⟩ := (hkeys p.name).1 (h1 p hp hm)
+      exact hno n v hmem hn
+    · exact hnd (h2 (norm n) ((hkeys (norm n)).2 ⟨n, v, hmem, rfl⟩))
+  cases hv : validate (some ps) (dkeys (expDict items [])) with
+  | none => exact absurd hv hne
+  | some e =>
+    have hna : ¬ Accepts env ex (expDict items []) f := by
+      rintro ⟨_, l', decl', hl', hg', hv'⟩
+      rw [hl] at hl'
+      injection hl' with hl'
+      subst hl'
+      rw [hg] at hg'
+      injection hg' with hg'
+      subst hg'
+      rw [hv] at hv'
+      cases hv'
+    obtain ⟨e', hstop, hrun⟩ := C30_generate_stops env items hwf ex hmode pre f rest hfiles hpre hna
+    have he : e' = .args e := by
+      cases hstop with
+      | nolang h => rw [hl] at h; cases h
+      | noFile _ _ h => rw [hres] at h; cases h
+      | loadErr _ _ _ _ h => rw [hres] at h; cases h
+      | nogen lang h1 _ h3 =>
+        rw [hl] at h1; injection h1 with h1; subst h1
+        rw [hg] at h3; cases h3
+      | args lang decl e2 h1 _ h3 h4 =>
+        rw [hl] at h1; injection h1 with h1; subst h1
+        rw [hg] at h3; injection h3 with h3; subst h3
+        rw [hv] at h4; injection h4 with h4; subst h4
+        rfl
+    rw [hrun, he]
+    refine ⟨rfl, rfl, e, rfl, ?_, ?_⟩
+    · intro n hn
+      subst hn
+      obtain ⟨p, hp, hm, hname, hnot⟩ := validate_missing_spec ps _ n hv
+      exact ⟨p, hp, hm, hname, fun n' v' hmem hn' => hnot ((hkeys n).2 ⟨n', v', hmem, hn'⟩)⟩
+    · intro k hk
+      subst hk
+      obtain ⟨hmem, hnd, _⟩ := validate_undeclared_spec ps _ k hv
+      exact ⟨(hkeys k).1 hmem, hnd⟩
+
+/-- **`textx generate`, located error.**  If the first file that is not accepted has a known
+language and fails to load at `l:c`, the command exits 1 after the calls for the files before it,
+and the failure is the error located in that file at that line and column; a missing file lets a
+non-textX exception escape instead. -/
+theorem C30_generate_located (env : Env) (items : List Item) (hwf : WF items)
+    (ex : Option Str) (hmode : modeLang env = .ok ex)
+    (pre : List Str) (f : Str) (rest : List Str) (hfiles : expFiles items = pre ++ f :: rest)
+    (hpre : ∀ g ∈ pre, Accepts env ex (expDict items []) g)
+    (lang : Str) (hl : langFor env ex f = some lang) :
+    (∀ l c, (fileInfo env f).res = .loadErr l c →
+      runGenerate env (render items) =
+        { exit := 1, calls := pre.map (fun g => { file := some g, kwargs := expDict items [] }),
+          fail := some (.located f l c) }) ∧
+    ((fileInfo env f).res = .noFile →
+      runGenerate env (render items) =
+        { exit := 1, calls := pre.map (fun g => { file := some g, kwargs := expDict items [] }),
+          fail := some .exception }) := by
+  constructor
+  · intro l c hres
+    have hna : ¬ Accepts env ex (expDict items []) f := by
+      rintro ⟨h, _⟩; rw [hres] at h; cases h
+    obtain ⟨e, hstop, hrun⟩ := C30_generate_stops env items hwf ex hmode pre f rest hfiles hpre hna
+    rw [hrun]
+    cases hstop with
+    | nolang h => rw [hl] at h; cases h
+    | noFile _ _ h => rw [hres] at h; cases h
+    | loadErr _ l' c' _ h => rw [hres] at h; injection h with h1 h2; subst h1; subst h2; rfl
+    | nogen _ _ h _ => rw [hres] at h; cases h
+    | args _ _ _ _ h _ _ => rw [hres] at h; cases h
+  · intro hres
+    have hna : ¬ Accepts env ex (expDict items []) f := by
+      rintro ⟨h, _⟩; rw [hres] at h; cases h
+    obtain ⟨e, hstop, hrun⟩ := C30_generate_stops env items hwf ex hmode pre f rest hfiles hpre hna
+    rw [hrun]
+    cases hstop with
+    | nolang h => rw [hl] at h; cases h
+    | noFile _ _ h => rfl
+    | loadErr _ _ _ _ h => rw [hres] at h; cases h
+    | nogen _ _ h _ => rw [hres] at h; cases h
+    | args _ _ _ _ h _ _ => rw [hres] at h; cases h
+
 /-- **`textx check`, exit status.**  With a usable metamodel selection
 (`explicit` = `--grammar` / a registered `--language`; otherwise per file name
 pattern) the command exits 0 iff every model file loads, and then reports `OK`
@@ -203,6 +402,66 @@ theorem C30_check_mode (env : Env) (files : List Str) :
       | .byPattern => checkLoop env false files [] := by
   unfold runCheck; rfl
 
+/-- **The whole `check` command** (independent reading of `runCheck`).  It exits 0 iff the
+metamodel selection is usable (anything but an unregistered `--language`) and every model file
+loads — `loads`: the metamodel is given explicitly or the file's language is known by its name
+pattern, and loading succeeds.  Then it reports `OK` for every file in order.  With an unusable
+selection it exits 1 with a registration error before looking at any file.  The exit status is
+always 0 or 1. -/
+theorem C30_check (env : Env) (files : List Str) :
+    ((runCheck env files).exit = 0 ↔
+      env.mode.usable = true ∧ ∀ f ∈ files, loads env env.mode.explicit f = true) ∧
+    ((runCheck env files).exit = 0 ∨ (runCheck env files).exit = 1) ∧
+    (env.mode.usable = true → (∀ f ∈ files, loads env env.mode.explicit f = true) →
+      runCheck env files = { exit := 0, msgs := files.map .ok }) ∧
+    (env.mode.usable = false → runCheck env files = { exit := 1, msgs := [.error .registration] }) ∧
+    (∀ explicit f, loads env explicit f = true ↔
+      (explicit = true ∨ ∃ l, (fileInfo env f).lang = some l) ∧ (fileInfo env f).res = .ok) := by
+  rw [runCheck_eq]
+  cases hu : env.mode.usable with
+  | false => simp [loads_iff]
+  | true =>
+    simp only [if_true, true_and]
+    obtain ⟨h1, h2, h3⟩ := C30_exit env env.mode.explicit files
+    exact ⟨h1, h2, fun _ h => h3 h, by simp, fun e f => loads_iff env e f⟩
+
+/-- **`textx check`, what is reported for the first failing file.**  With a usable metamodel
+selection and `OK` files `pre` before it: a file that fails to load at `l:c` (language known)
+gives exit 1 and, after the `OK` lines, exactly the error located in that file at `l:c`; a file
+whose language cannot be determined gives a registration error; a missing file gives exit 1 with
+no message after the `OK` lines (the exception escapes — outside "existing model files"). -/
+theorem C30_check_located (env : Env) (pre : List Str) (f : Str) (rest : List Str)
+    (husable : env.mode.usable = true)
+    (hpre : ∀ g ∈ pre, loads env env.mode.explicit g = true) :
+    (∀ l c, (env.mode.explicit = true ∨ (fileInfo env f).lang.isSome) →
+      (fileInfo env f).res = .loadErr l c →
+      runCheck env (pre ++ f :: rest) = { exit := 1, msgs := pre.map .ok ++ [.error (.located f l c)] }) ∧
+    (env.mode.explicit = false → (fileInfo env f).lang = none →
+      runCheck env (pre ++ f :: rest) = { exit := 1, msgs := pre.map .ok ++ [.error .registration] }) ∧
+    ((env.mode.explicit = true ∨ (fileInfo env f).lang.isSome) → (fileInfo env f).res = .noFile →
+      runCheck env (pre ++ f :: rest) = { exit := 1, msgs := pre.map .ok }) := by
+  rw [runCheck_eq, husable]
+  simp only [if_true]
+  refine ⟨?_, ?_, ?_⟩
+  · intro l c hlang hres
+    have hf : loads env env.mode.explicit f = false := by simp [loads, hres]
+    obtain ⟨h1, h2⟩ := C30_exit_located env env.mode.explicit pre f rest hpre hf
+    rw [h1, h2 l c hlang hres]
+  · intro hex hlang
+    have hf : loads env env.mode.explicit f = false := by simp [loads, hex, hlang]
+    obtain ⟨h1, _⟩ := C30_exit_located env env.mode.explicit pre f rest hpre hf
+    rw [h1]
+    simp [failMsgs, hex, hlang]
+  · intro hlang hres
+    have hf : loads env env.mode.explicit f = false := by simp [loads, hres]
+    obtain ⟨h1, _⟩ := C30_exit_located env env.mode.explicit pre f rest hpre hf
+    rw [h1]
+    have : (!env.mode.explicit && (fileInfo env f).lang.isNone) = false := by
+      rcases hlang with h | h
+      · simp [h]
+      · cases hl : (fileInfo env f).lang <;> simp_all
+    simp [failMsgs, this, hres]
+
 /-! ## non-vacuity -/
 
 /-- a command line with dashed flag, dashed valued argument, quoted value and a clash -/
@@ -231,5 +490,53 @@ example : (runGenerate exEnv ["a.c30a".toList, "--opt-x".toList, "1".toList]).fa
 
 example : runCheck exEnv ["a.c30a".toList, "b.c30a".toList, "a.c30a".toList] =
     { exit := 1, msgs := [.ok "a.c30a".toList, .error (.located "b.c30a".toList 2 5)] } := by decide
+
+
+/-! ### non-vacuity of the new hypotheses -/
+
+-- a token list with a bare flag directly before a file name: it *is* the valued reading
+example : render [.arg "my-flag".toList (some "a.c30a".toList)] = ["--my-flag".toList, "a.c30a".toList] := by decide
+example : WF [.arg "my-flag".toList (some "a.c30a".toList)] := by simp [WF, isSwitch]
+example : ¬ WF [.arg "my-flag".toList none, .file "a.c30a".toList] := by simp [WF]
+
+-- a typed line with click's options at arbitrary places (hypotheses `WFc`, `WF (itemsOf …)` of `C30_args_click`)
+def exLine : List CItem :=
+  [.valOpt "--target".toList "T".toList, .item (.file "a.c30a".toList), .flagOpt "--overwrite".toList,
+   .item (.arg "my-flag".toList none), .valOpt "-o".toList "out".toList, .item (.arg "x-y".toList (some "1".toList))]
+
+example : WFc exLine := by simp only [exLine, WFc, Plain]; decide
+example : WF (itemsOf exLine) := by simp [exLine, itemsOf, WF, isSwitch]
+example : clickStrip (renderC exLine) = ["a.c30a".toList, "--my-flag".toList, "--x-y".toList, "1".toList] := by decide
+
+/-- two generators for the target: the file's own language declares `must`, the `any` fallback accepts all -/
+def exEnv2 : Env :=
+  { mode := .byPattern,
+    files := [("a.c30a".toList, ⟨some "c30a".toList, .ok⟩), ("b.c30a".toList, ⟨some "c30a".toList, .ok⟩),
+              ("c.c30b".toList, ⟨some "c30b".toList, .ok⟩), ("d.c30a".toList, ⟨some "c30a".toList, .noFile⟩)],
+    gens := [("c30a".toList, none), ("c30b".toList, some [⟨"must".toList, true⟩]), ("any".toList, none)] }
+
+-- hypotheses of `C30_generate_reject_selected`: the selected generator (`c30b`) rejects although `any`
+-- (and `c30a`) would accept — `C30_generate_reject` does not apply, the run still stops with exit 1
+example : findGen exEnv2.gens "c30b".toList true = some (some [⟨"must".toList, true⟩]) := by decide
+example : Accepts exEnv2 none [("opt".toList, .flag)] "a.c30a".toList :=
+  ⟨by decide, "c30a".toList, none, by decide, by decide, by decide⟩
+example : runGenerate exEnv2 ["a.c30a".toList, "b.c30a".toList, "c.c30b".toList, "--opt".toList] =
+    { exit := 1,
+      calls := [⟨some "a.c30a".toList, [("opt".toList, .flag)]⟩, ⟨some "b.c30a".toList, [("opt".toList, .flag)]⟩],
+      fail := some (.args (.missing "must".toList)) } := by decide
+-- `StopsWith` for a missing file (hypothesis `¬ Accepts` of `C30_generate_stops`)
+example : StopsWith exEnv2 none [] "d.c30a".toList .exception := .noFile "c30a".toList (by decide) (by decide)
+example : ¬ Accepts exEnv2 none [] "d.c30a".toList := by
+  rintro ⟨h, _⟩; exact absurd h (by decide)
+-- `Mode.usable` / `Mode.explicit`
+example : exEnv.mode.usable = true ∧ exEnv.mode.explicit = false := by decide
+example : (Mode.byLanguage "nope".toList false).usable = false := by decide
+example : runCheck { exEnv with mode := .byLanguage "nope".toList false } ["a.c30a".toList] =
+    { exit := 1, msgs := [.error .registration] } := by decide
+-- a missing file with a known language: exit 1, nothing after the `OK` lines
+example : runCheck exEnv2 ["a.c30a".toList, "d.c30a".toList] = { exit := 1, msgs := [.ok "a.c30a".toList] } := by decide
+-- an unknown language: registration error
+example : runCheck exEnv2 ["a.c30a".toList, "zz.txt".toList] =
+    { exit := 1, msgs := [.ok "a.c30a".toList, .error .registration] } := by decide
 
 end Cli
